@@ -115,7 +115,11 @@ IncludesPairs(rules, start, nul, NTT) ==
                       i \in {j \in (it[2] + 1)..Len(rhs) :
                                /\ IsNT(rules, rhs[j])
                                /\ \A q \in (j + 1)..Len(rhs) : rhs[q] \in nul}}
-                  : it \in {x \in I : RLhs(rules, start, x[1]) = A} }
+                  \* only productions of A that START in I (dot at 0).  Until the fix "includes relation only from
+                  \* productions started in the state" the code also walked kernel items A -> a . b from their dot,
+                  \* which added bogus edges and look-aheads that are not LALR(1) (found by this check, seed 2:
+                  \* start: Y n | Z / n: X | Y v | start Z / v: | X start X - state {n -> X .} got look-ahead Z)
+                  : it \in {x \in I : RLhs(rules, start, x[1]) = A /\ x[2] = 0} }
           : nt \in NTT }
 
 \* lookback: <<nt, state2, rule>>
@@ -171,6 +175,10 @@ RRWinner(rules, R) ==
 RRConflicts(rules, start, las) ==
   {<<I, t>> \in LR0States(rules, start) \X (TermsOf(rules) \cup {END}) :
        Cardinality(RulesOn(las, I, t)) > 1 /\ RRWinner(rules, RulesOn(las, I, t)) = 0}
+
+\* reduce/reduce competitions, resolved by priority or not
+RRCompetitions(rules, start, las) ==
+  {<<I, t>> \in LR0States(rules, start) \X (TermsOf(rules) \cup {END}) : Cardinality(RulesOn(las, I, t)) > 1}
 
 SRConflicts(rules, start, las) ==
   {<<I, t>> \in LR0States(rules, start) \X TermsOf(rules) :
